@@ -1,47 +1,48 @@
-# U-CBOR-STRREF (DESIGN 6): stringref eligibility on the encoder side against the stringref table and the shared running index
+# U-CBOR-STRREF (DESIGN 6): stringref index assignment on the encoder side (http://cbor.schmorp.de/stringref).
+# The decoder gives every definite-length text or byte string inside the namespace whose length reaches min_length_for_stringref(table size) the next
+# index (table size), whether or not it is referenced later.  The encoder must therefore advance its running index next_stringref_ for exactly the
+# strings it writes literally that meet that rule at the moment they are written, and must write a reference only to an index it assigned.
 from core import FuncSpec, CopySpec, EnumSpec, Harness, INF
 
 E = 'include/jsoncons_ext/cbor/cbor_encoder.hpp'
 P = 'include/jsoncons_ext/cbor/cbor_parser.hpp'
 D = 'include/jsoncons_ext/cbor/cbor_detail.hpp'
 
-TOTAL0 = '(__CPROVER_old(vx_text_count) + __CPROVER_old(vx_bytes_count))'
-ELIG = '(self->pack_strings_ && vx_len >= spec_strref_min_length(%s))' % TOTAL0
-def contract(kind):
-    cnt = 'vx_text_count' if kind == 'text' else 'vx_bytes_count'
+N0 = '__CPROVER_old(self->next_stringref_)'
+ELIG = '(self->pack_strings_ && vx_len >= spec_strref_min_length(%s))' % N0
+REQ = 'self->next_stringref_ < ((size_t)1 << 60) && vx_registered == 0 && vx_out == VX_OUT_NONE'
+ASG = 'self->next_stringref_, vx_registered, vx_reg_index, vx_out, vx_items'
+TRACK = ('ensures', '[C06] the running index follows the decoder\'s table: a string written literally takes the next index exactly when packing is on and its length reaches the stringref minimum for the current index; a reference takes none',
+         '(vx_out == VX_OUT_LITERAL ==> self->next_stringref_ == %s + (%s ? 1 : 0)) && (vx_out == VX_OUT_REF ==> self->next_stringref_ == %s)' % (N0, ELIG, N0))
+def contract():
     return [
-        ('requires', 'self->next_stringref_ == vx_text_count + vx_bytes_count && vx_text_count < ((size_t)1 << 60) && vx_bytes_count < ((size_t)1 << 60)'),
-        ('requires', 'vx_registered == 0 && vx_out == VX_OUT_NONE && vx_find_result == (vx_find_result && %s > 0)' % cnt),
-        ('assigns', 'self->next_stringref_, vx_text_count, vx_bytes_count, vx_registered, vx_reg_index, vx_out, vx_items'),
-        ('ensures', '[C06] representation invariant: the next stringref index is the number of strings registered so far (text and byte strings share one namespace, as in the decoder table)',
-         'self->next_stringref_ == vx_text_count + vx_bytes_count'),
-        ('ensures', '[C06] a new string is registered exactly when packing is on, it is not yet in the table and its length reaches the stringref minimum for the running index (the decoder applies the same rule to its table size)',
+        ('requires', REQ), ('assigns', ASG), TRACK,
+        ('ensures', '[C06] a new string is entered in the encoder\'s table exactly when packing is on, it is not yet there and its length reaches the stringref minimum for the running index',
          '(vx_registered == 1) == (%s && !vx_find_result)' % ELIG),
-        ('ensures', '[C06] a registered string gets the running index and is written literally', 'vx_registered == 1 ==> (vx_reg_index == %s && vx_out == VX_OUT_LITERAL)' % TOTAL0),
-        ('ensures', '[C06] an eligible string that is already in the table is written as a reference (tag 25 + index), nothing is registered',
+        ('ensures', '[C06] it is entered under the index the decoder will give it (the running index at that moment) and written literally', 'vx_registered == 1 ==> (vx_reg_index == %s && vx_out == VX_OUT_LITERAL)' % N0),
+        ('ensures', '[C06] an eligible string that is already in the table is written as a reference (tag 25 + index), nothing is entered',
          '(%s && vx_find_result) ==> (vx_out == VX_OUT_REF && vx_registered == 0)' % ELIG),
-        ('ensures', '[C06] a string below the minimum length (or with packing off) is written literally and not registered',
-         '!%s ==> (vx_out == VX_OUT_LITERAL && vx_registered == 0)' % ELIG),
-        ('ensures', '[C06] at most one registration per string', 'vx_registered <= 1'),
+        ('ensures', '[C06] a string below the minimum length (or with packing off) is written literally and not entered', '!%s ==> (vx_out == VX_OUT_LITERAL && vx_registered == 0)' % ELIG),
+        ('ensures', '[C06][C08] exactly one encoding per string', 'vx_registered <= 1 && vx_out != VX_OUT_NONE'),
     ]
+LITERAL = [('requires', 'self->next_stringref_ < ((size_t)1 << 60) && vx_out == VX_OUT_NONE'), ('assigns', 'self->next_stringref_, vx_out'), TRACK, ('ensures', '[C06][C08] the string is written literally, once', 'vx_out == VX_OUT_LITERAL')]
 COMMON0 = [
-    (r'jsoncons::cbor::detail::min_length_for_stringref\(', 'min_length_for_stringref(', 1),
-    (r'\bpack_strings_\b', '(self->pack_strings_)', 1),
-    (r'\bnext_stringref_\b', '(self->next_stringref_)', 1, 3),
-    (r'\bstringref_map_\.size\(\)', 'vx_text_count', 0, 3),
-    (r'\bbytestringref_map_\.size\(\)', 'vx_bytes_count', 0, 3),
-    (r'write_tag\(25\);\s*write_uint64_value\(\(\*it\)\.second\);', 'vx_out_ref();', 1),
+    (r'jsoncons::cbor::detail::min_length_for_stringref\(', 'min_length_for_stringref(', 0, 2),
+    (r'\bpack_strings_\b', '(self->pack_strings_)', 0, 2),
+    (r'\bnext_stringref_\b', '(self->next_stringref_)', 0, 4),
+    # the sizes of the two maps (number of text / byte strings entered so far) are ghost values: each at most the running index
+    (r'\bstringref_map_\.size\(\)', 'vx_text_count', 0, 3), (r'\bbytestringref_map_\.size\(\)', 'vx_bytes_count', 0, 3),
+    (r'write_tag\(25\);\s*write_uint64_value\(\(\*it\)\.second\);', 'vx_out_ref();', 0, 1),
     (r'end_value\(\);', 'vx_items++;', 0, 1),
     (r'JSONCONS_VISITOR_RETURN;', 'return;', 0, 1),
 ]
-COMMON = COMMON0
 TEXT = COMMON0 + [
     (r'auto sink = unicode_traits::validate\(sv\.data\(\), sv\.size\(\)\);\s*if \(sink\.ec != unicode_traits::unicode_errc\(\)\)\s*\{\s*JSONCONS_THROW\(ser_error\(cbor_errc::invalid_utf8_text_string\)\);\s*\}', 'VX_UTF8_VALIDATED();', 1),
     (r'sv\.size\(\)', 'vx_len', 1, 3),
     (r'string_type s\(sv\.data\(\), vx_len, alloc_\);', '', 1),
     (r'auto it = stringref_map_\.find\(s\);', 'bool vx_found = vx_find_result;', 1),
     (r'it == stringref_map_\.end\(\)', '!vx_found', 1),
-    (r'stringref_map_\.emplace\(std::make_pair\(std::move\(s\), ([^;]+?)\)\);', r'VX_REGISTER_TEXT(\1);', 1),
+    (r'stringref_map_\.emplace\(std::make_pair\(std::move\(s\), ([^;]+?)\)\);', r'VX_REGISTER(\1);', 1),
     (r'write_utf8_string\(sv\);', 'vx_out_literal();', 2),
 ]
 def BYTES(tagged):
@@ -52,29 +53,40 @@ def BYTES(tagged):
         (r'byte_string_type bs\(b\.data\(\), vx_len, alloc_\);', '', 1),
         (r'auto it = bytestringref_map_\.find\(bs\);', 'bool vx_found = vx_find_result;', 1),
         (r'it == bytestringref_map_\.end\(\)', '!vx_found', 1),
-        (r'bytestringref_map_\.emplace\(std::make_pair\(bs, ([^;]+?)\)\);', r'VX_REGISTER_BYTES(\1);', 1),
+        (r'bytestringref_map_\.emplace\(std::make_pair\(bs, ([^;]+?)\)\);', r'VX_REGISTER(\1);', 1),
         (r'write_tag\(raw_tag\);\s*', '', 2 if tagged else 0),
-        (r'write_byte_string\(bs?\);', 'vx_out_literal();', 2),
+        (r'write_byte_string\(bs?\);', 'write_byte_string(self, vx_len);', 2),
     ] + COMMON0
 SPECS = [
     FuncSpec('min_length_for_stringref', D, r'size_t min_length_for_stringref\(uint64_t index\)', count=1,
              csig='static size_t min_length_for_stringref(uint64_t index)',
              contract=[('assigns', ''), ('ensures', '[C06] min_length_for_stringref is the stringref table at every index', '__CPROVER_return_value == spec_strref_min_length(index)')]),
+    FuncSpec('write_byte_string', E, r'void write_byte_string\(const byte_string_view& b\)', count=1, csig='void write_byte_string(struct cbor_encoder* self, size_t vx_len)', contract=LITERAL,
+             rules=COMMON0 + [(r'b\.size\(\)', 'vx_len', 1, 3), (r'write_type_and_length\(0x40, vx_len\);\s*sink_\.append\(b\.data\(\), vx_len\);', 'vx_out_literal();', 1)]),
+    FuncSpec('write_bignum', E, r'void write_bignum\(bigint& n\)', count=1, csig='void write_bignum(struct cbor_encoder* self, size_t vx_len)', contract=LITERAL,
+             # program slice: sign handling and the conversion of the bigint to bytes are not under contract; the head written for the byte length is proved in unit cbor_head
+             rules=COMMON0 + [(r'\A.*?std::size_t length = data\.size\(\);', 'size_t length = vx_len;', 1),
+                              (r'if \(is_neg\)\s*\{\s*write_tag\(3\);\s*\}\s*else\s*\{\s*write_tag\(2\);\s*\}', '', 1),
+                              (r'if \(length <= 0x17\).*\Z', 'vx_out_literal();', 1)]),
     FuncSpec('write_string', E, r'void write_string\(const string_view& sv\)', count=1,
-             csig='void write_string(struct cbor_encoder* self, size_t vx_len)', contract=contract('text'), rules=TEXT),
+             csig='void write_string(struct cbor_encoder* self, size_t vx_len)', contract=contract(), rules=TEXT),
     FuncSpec('visit_byte_string', E, r'visit_byte_string\(const byte_string_view& b,\s*semantic_tag tag,\s*const ser_context&,\s*std::error_code&\) final', count=1,
-             csig='void visit_byte_string(struct cbor_encoder* self, size_t vx_len)', contract=contract('bytes'), rules=BYTES(False)),
+             csig='void visit_byte_string(struct cbor_encoder* self, size_t vx_len)', contract=contract(), rules=BYTES(False)),
     FuncSpec('visit_byte_string_tagged', E, r'visit_byte_string\(const byte_string_view& b,\s*uint64_t raw_tag,\s*const ser_context&,\s*std::error_code&\) final', count=1,
-             csig='void visit_byte_string_tagged(struct cbor_encoder* self, size_t vx_len)', contract=contract('bytes'), rules=BYTES(True)),
+             csig='void visit_byte_string_tagged(struct cbor_encoder* self, size_t vx_len)', contract=contract(), rules=BYTES(True)),
 ]
 SITE_CHECKS = [
     {'file': P, 'pattern': r'\.(length|size)\(\) >= jsoncons::cbor::detail::min_length_for_stringref\(stringref_map_stack_\.back\(\)\.size\(\)\)\)\s*\{\s*stringref_map_stack_\.back\(\)\.emplace_back\(', 'count': 4, 'props': ['C06'],
      'what': 'all four decoder sites register a string iff its length reaches min_length_for_stringref(current table size), and append it to the table (index = table size)'},
-    {'file': E, 'pattern': r'next_stringref_\+\+', 'count': 3, 'props': ['C06'], 'what': 'the running index is advanced exactly at the three registration sites'},
+    {'file': E, 'pattern': r'(sink_\.append\(b\.data\(\), b\.size\(\)\)|write_utf8_string\(sv\)|for \(auto c : data\)\s*\{\s*sink_\.push_back\(c\);)', 'count': 4, 'props': ['C06'],
+     'what': 'string payloads are written literally at exactly four places: write_byte_string, write_string (twice), write_bignum - all under contract here'},
 ]
 HARNESSES = [
     Harness('min_length_for_stringref', 'h_min_length', enforce='min_length_for_stringref', method='LF', props=['C06']),
+    Harness('write_byte_string', 'h_write_byte_string', enforce='write_byte_string', replace=['min_length_for_stringref'], method='LF', props=['C06']),
+    Harness('write_bignum', 'h_write_bignum', enforce='write_bignum', replace=['min_length_for_stringref'], method='LF', props=['C06'],
+            note='program slice: the index bookkeeping of write_bignum (its head bytes: unit cbor_head)'),
     Harness('write_string', 'h_write_string', enforce='write_string', replace=['min_length_for_stringref'], method='LF', props=['C06']),
-    Harness('visit_byte_string', 'h_bytes', enforce='visit_byte_string', replace=['min_length_for_stringref'], method='LF', props=['C06']),
-    Harness('visit_byte_string_tagged', 'h_bytes_tagged', enforce='visit_byte_string_tagged', replace=['min_length_for_stringref'], method='LF', props=['C06']),
+    Harness('visit_byte_string', 'h_bytes', enforce='visit_byte_string', replace=['min_length_for_stringref', 'write_byte_string'], method='LF', props=['C06']),
+    Harness('visit_byte_string_tagged', 'h_bytes_tagged', enforce='visit_byte_string_tagged', replace=['min_length_for_stringref', 'write_byte_string'], method='LF', props=['C06']),
 ]
